@@ -62,6 +62,11 @@ CHECKS = {
         text="C04_soft_iff_envelope, C04_envelope_within_range, C04_inactive_steps_free, C04_critical_hard and C04_validate_iff_wellformed / C04_rejections are proved for all goals, targets (incl. NaN / inf steps), ranges, nominals and option combinations; _gp_validate_goals is run on a mostly-valid and a malformed goal stream and must accept exactly what the model accepts; real IPOPT runs of all variants are checked step by step against the envelope of the reported epsilon and for critical goals from their priority on.",
         note="Trusted: Coq kernel + vm_compute; harness; IPOPT for the sampled runs (1e-6). Vector goals are not modelled. No axioms. Known finding C04-critical-conflict-clipped (open): a critical goal contradicting bounds retained from an earlier priority is clipped silently instead of failing.",
         ref="DESIGN.md §5 C04"),
+    "C17": dict(
+        technique="Coq proof (convexity of x^r over Q via the tangent inequality; chord majorant exact at breakpoints, monotone, convex, within a checked tolerance; |f| epigraph; 1-D QP form) + the decidable breakpoint check evaluated in Coq on the coefficients produced by the code + paired real runs of equivalent formulations",
+        text="C17_chords_majorise, C17_chords_exact_at_breaks, C17_chords_monotone_convex, C17_chords_tolerance hold for every order >= 1 and every increasing breakpoint list; check_breaks is run in Coq on the breakpoints recovered from LinearizedOrderGoal._get_linear_coefficients (orders 2-5, four tolerances) so the theorems apply to the actual coefficients; C17_min_abs and C17_qp_form cover the absolute-value and QP front-end algebra. Equivalent formulations are compared by paired real solves: single pass (both methods) vs multi-pass keep_soft, CachingQPSol vs casadi.qpsol (qpOASES, OSQP), expand on/off, map modes, second optimize() vs fresh.",
+        note="Trusted: Coq kernel + vm_compute; harness; the solvers (paired runs are solver-regime samples compared to 1e-5; QP plugins run in a forked child with a timeout because HiGHS' QP solver can loop on degenerate problems). Vector-vs-scalar goals and MinAbs-vs-explicit pairs are not yet part of the paired runs. No axioms. Genuine defect repaired in /repo 522ac7c (CachingQPSol Hessian).",
+        ref="DESIGN.md §5 C17"),
 }
 
 PENDING_REASON = "check not built yet (work in progress; see DESIGN.md §7 build order) — not claimed until its Coq model, theorems and correspondence check run clean on the unchanged tree"
